@@ -83,6 +83,10 @@ EXPLANATION += (
     ' Round 16: a candidate unsigned type is admitted at most up to its capacity (R-CAP/fits-predicate).'
 )
 
+EXPLANATION += (
+    ' Round 17: windows taken at a re-ordered row have constant length (R-PERM/permuted-row-window).'
+)
+
 RULE_TEXT = (
     "one obligation per step / chunk-extent site, per range relation of "
     "the dispatch loop, per piece-list mutation, per dispatcher x member")
